@@ -51,14 +51,18 @@ theorem Inv.upToDate {P : Program} (hP : P.WF) {s s' : St} {k : Key}
     (h4 : s'.db = s.db) (h5 : s'.dbIter = s.dbIter) (h6 : s'.status = upd s.status k .done) (h7 : s'.task = s.task)
     (h8 : s'.pending = s.pending.filter (fun p => p.1 != k)) (h9 : s'.target = s.target)
     (h10 : s'.started = s.started) (h11 : s'.validSeen = s.validSeen)
+    (h12 : s'.registered = s.registered) (h13 : s'.sigAt = s.sigAt)
     (hs : s.status k = .scanning) (hvs : s.validSeen k = some true)
     (hall : (s.mem.res k).deps.all (depFresh s (s.mem.res k)) = true)
     (hi : Inv P s) : Inv P s' := by
   have hst : s.started = true := started_of_status hi (by rw [hs]; simp)
   have ha : active s' ↔ active s := active_congr h10
-  obtain ⟨hval, hbk⟩ := hi.validOk k hs hvs
+  obtain ⟨hval, hbk, hsigk⟩ := hi.validOk k hs hvs
   have hnf : inflight s k = false := by simp [inflight, hs]
-  obtain ⟨gk, fk⟩ := hi.good k hbk hnf
+  -- the stored signature is the current rule's, which the program computed at `lookup`
+  have hsok : SigOf P k (s.mem.res k).sig := by rw [hsigk]; exact hi.sigAtOk k (hi.scanReg k hs)
+  obtain ⟨gk0, fk⟩ := hi.good k hbk hnf
+  have gk := gk0 hsok
   -- status facts
   have hst' : ∀ x, s'.status x = if x = k then .done else s.status x := by intro x; rw [h6]; rfl
   have hdone_mono : ∀ x, s.status x = .done → s'.status x = .done := by
@@ -77,6 +81,10 @@ theorem Inv.upToDate {P : Program} (hP : P.WF) {s s' : St} {k : Key}
     · subst e; simp
     · rw [setRes_res_other _ _ _ _ e]
   have hdeps : ∀ x, (s'.mem.res x).deps = (s.mem.res x).deps := by
+    intro x; rw [h3]; by_cases e : x = k
+    · subst e; simp
+    · rw [setRes_res_other _ _ _ _ e]
+  have hsig : ∀ x, (s'.mem.res x).sig = (s.mem.res x).sig := by
     intro x; rw [h3]; by_cases e : x = k
     · subst e; simp
     · rw [setRes_res_other _ _ _ _ e]
@@ -154,7 +162,8 @@ theorem Inv.upToDate {P : Program} (hP : P.WF) {s s' : St} {k : Key}
     by_cases e : x = k
     · subst e
       constructor
-      · exact GoodRec.frame (σ := s.mem) (by rw [hseq]) (by rw [hdisc]) (by rw [henv]) (hv x)
+      · intro _
+        exact GoodRec.frame (σ := s.mem) (by rw [hseq]) (by rw [hdisc]) (by rw [henv]) (hv x)
           (by intro y hy; rw [hdeps]; exact hy) gk
       · constructor
         · intro q v hq hk; rw [hseq] at hq; left; rw [hv]; exact (kseq q v hq hk).2
@@ -162,8 +171,9 @@ theorem Inv.upToDate {P : Program} (hP : P.WF) {s s' : St} {k : Key}
     · rw [hbo x e] at hbx
       obtain ⟨g, f⟩ := hi.good x hbx hfl
       constructor
-      · exact GoodRec.frame (σ := s.mem) (by rw [hseq]) (by rw [hdisc]) (by rw [henv]) (hv x)
-          (by intro y hy; rw [hdeps]; exact hy) g
+      · intro hso; rw [hsig] at hso
+        exact GoodRec.frame (σ := s.mem) (by rw [hseq]) (by rw [hdisc]) (by rw [henv]) (hv x)
+          (by intro y hy; rw [hdeps]; exact hy) (g hso)
       · apply FreshRec.mono (σ := s.mem) (by rw [hseq]) (by rw [hdisc]) (by rw [hbo x e]; exact Nat.le_refl _) _ _ f
         · intro y; left; rw [hv, hc]; exact ⟨rfl, Nat.le_refl _⟩
         · intro dv hdv hp
@@ -264,12 +274,18 @@ theorem Inv.upToDate {P : Program} (hP : P.WF) {s s' : St} {k : Key}
     rw [hst'] at hx
     by_cases e : x = k
     · simp [e] at hx
-    · simp [e] at hx; rw [h11] at hvx; rw [h1, hv, hbo x e]; exact hi.validOk x hx hvx
+    · simp [e] at hx; rw [h11] at hvx; rw [h1, hv, hbo x e, hsig, h13]; exact hi.validOk x hx hvx
   · intro ht x hx
     rw [h9] at ht; rw [h11]
     rw [hst'] at hx
     by_cases e : x = k
     · simp [e] at hx
     · simp [e] at hx; exact hi.validIdle ht x hx
+  · rw [h12, h13]; exact hi.sigAtOk
+  · intro x hx
+    rw [h12]; rw [hst'] at hx
+    by_cases e : x = k
+    · simp [e] at hx
+    · simp [e] at hx; exact hi.scanReg x hx
 
 end LLBuild.Engine
